@@ -6,6 +6,7 @@
    history class on which it does not (an accept landing after the snapshot, finding D11).
    Runtime facts (goroutines and descriptors released) are observed by the harness, not proved. *)
 Require Import PollerStop PollerStopProofs StopModel StopProofs StopObs.
+Require AcceptStop AcceptStopProofs.
 From Coq Require Import List ZArith Bool Lia.
 Import ListNotations.
 
@@ -71,6 +72,23 @@ Theorem c18_poller_stop_old_refuted n :
   let p := prun true pinit ([PStop; PBegin] ++ repeat PIter n) in ps p = PRunning /\ spinning p = true.
 Proof. exact (old_stop_lost n). Qed.
 
+(* The hand-over of an accepted connection to the nbhttp engine racing with Stop/Shutdown (listen loop, listener mux,
+   AddConn*, closeAllConns), every interleaving of the three goroutines, with and without the listener mux: when nothing
+   can move any more, the connection is not forgotten - it was refused by the kernel, closed by whoever held it, or
+   registered in time for the sweep. D52/D53 as refutations: the code before the repairs, and the code between the two
+   repairs, each reach a final state in which an accepted connection is owned by nobody (or is served behind the sweep). *)
+Theorem c18_accept_handover_closed mx x :
+  AcceptStopProofs.reach (AcceptStopProofs.fixed mx) x -> AcceptStop.terminal (AcceptStopProofs.fixed mx) x = true -> AcceptStop.forgotten x = false.
+Proof. exact (AcceptStopProofs.accept_stop_safe mx x). Qed.
+
+Theorem c18_accept_handover_old_refuted mx :
+  exists x, AcceptStopProofs.reach (AcceptStopProofs.old mx) x /\ AcceptStop.terminal (AcceptStopProofs.old mx) x = true /\ AcceptStop.forgotten x = true.
+Proof. exact (AcceptStopProofs.accept_stop_old_refuted mx). Qed.
+
+Theorem c18_accept_handover_half_refuted mx :
+  exists x, AcceptStopProofs.reach (AcceptStopProofs.half mx) x /\ AcceptStop.terminal (AcceptStopProofs.half mx) x = true /\ AcceptStop.forgotten x = true.
+Proof. exact (AcceptStopProofs.accept_stop_half_refuted mx). Qed.
+
 Print Assumptions c18_accounting.
 Print Assumptions c18_notified_before_return.
 Print Assumptions c18_terminates.
@@ -79,3 +97,6 @@ Print Assumptions c18_model_logs_are_legal.
 Print Assumptions c18_poller_stop_not_lost.
 Print Assumptions c18_poller_never_spins.
 Print Assumptions c18_poller_stop_old_refuted.
+Print Assumptions c18_accept_handover_closed.
+Print Assumptions c18_accept_handover_old_refuted.
+Print Assumptions c18_accept_handover_half_refuted.
